@@ -50,13 +50,13 @@ std::string h_gen(Src& s) {
 
 // ------------------------------------------------------------------ element type and allocator
 static const unsigned MAGIC = 0xC0FFEE11u, LOCAL = 0x10CA1u; static bool g_skip = false;   // g_skip: harness-local temporaries, no bookkeeping
-static long g_ctor = 0, g_throw_at = 0, g_alloc = 0, g_athrow_at = 0; static bool g_armed = false, g_fault_fired = false, g_witness = false;
+static long g_ctor = 0, g_throw_at = 0, g_alloc = 0, g_athrow_at = 0; static bool g_armed = false, g_fault_fired = false, g_witness = false; static int g_fault_kind = 0;   // 1 element ctor, 2 segment allocation, 3 segment-table allocation
 static std::map<const void*, int> g_constructed;     // address -> number of constructions (never erased: addresses must be stable)
 static std::map<const void*, int> g_destroyed; static long n_ghost_dtor = 0;
 struct Boom { int v; };
 struct Elem {
     int v; unsigned magic;
-    void born() { if (g_skip) { magic = LOCAL; return; } if (g_armed && ++g_ctor == g_throw_at) { g_fault_fired = true; throw Boom{ v }; } magic = MAGIC; g_constructed[this]++; }
+    void born() { if (g_skip) { magic = LOCAL; return; } if (g_armed && ++g_ctor == g_throw_at) { g_fault_fired = true; g_fault_kind = 1; throw Boom{ v }; } magic = MAGIC; g_constructed[this]++; }
     Elem() : v(-1) { born(); }
     explicit Elem(int x) : v(x) { born(); }
     Elem(const Elem& o) : v(o.v) { born(); }
@@ -67,7 +67,7 @@ struct Elem {
 template <class T> struct ThrowAlloc {
     using value_type = T; using is_always_equal = std::true_type;
     ThrowAlloc() = default; template <class U> ThrowAlloc(const ThrowAlloc<U>&) {}
-    T* allocate(size_t n) { if (g_armed && ++g_alloc == g_athrow_at) { g_fault_fired = true; throw std::bad_alloc(); } return (T*)std::malloc(n * sizeof(T)); }
+    T* allocate(size_t n) { if (g_armed && ++g_alloc == g_athrow_at) { g_fault_fired = true; g_fault_kind = std::is_same<T, Elem>::value ? 2 : 3; throw std::bad_alloc(); } return (T*)std::malloc(n * sizeof(T)); }
     void deallocate(T* p, size_t) { std::free(p); }
     template <class U> bool operator==(const ThrowAlloc<U>&) const { return true; }
     template <class U> bool operator!=(const ThrowAlloc<U>&) const { return false; }
@@ -145,6 +145,13 @@ static void judge() {
         // after an injected fault: size() sane, at(i) either works or throws, iteration is possible
         size_t grown = (size_t)g_prefill; for (auto& k : C) grown += (size_t)std::max(k.len, k.d) + 64;
         if (sz > grown + 200) vs_violation("SIZE-INSANE", "size()=%zu after a fault, at most %zu elements were ever requested", sz, grown);
+        // calls that RETURNED normally keep their elements, whatever happened to the failing call (it must not wipe its neighbours)
+        for (auto& k : C) if (k.ok && k.len > 0 && (size_t)(k.start + k.len) <= sz) for (long i = k.start; i < k.start + k.len; i++) {
+            const Elem* e = nullptr; try { e = &V->at((size_t)i); } catch (std::exception&) { continue; }
+            long want = (k.op == 'P' || k.op == 'E' || k.op == 'V' || k.op == 'B') ? k.val : -1;
+            if (e->magic != MAGIC || e->v != (int)want) vs_violation("NEIGHBOUR-WIPED", "after a fault in another call, element %ld of a call that had returned normally (call %c of t%d) holds magic=%x v=%d, expected v=%ld", i, k.op, k.thread, e->magic, e->v, want); }
+        // at() beyond size() (size() is capped by the allocated prefix after a failure): must throw or work, never touch foreign memory
+        for (size_t i = sz; i < grown && i < sz + 300; i++) { try { const Elem& e = V->at(i); n_at_ok += (e.magic == MAGIC || e.magic == 0) ? 1 : 0; } catch (std::exception&) { n_at_threw++; } }
         for (size_t i = 0; i < sz; i++) { try { const Elem& e = V->at(i); n_at_ok += (e.magic == MAGIC || e.magic == 0) ? 1 : 0; /* must not crash; content of a failed range is unspecified */ } catch (std::exception&) { n_at_threw++; } }
     }
     g_armed = false;
@@ -193,7 +200,8 @@ void h_run(Case& c) {
     vs_begin(c.sched.c_str());
     // known finding C11-fault-orphans-segments: after a constructor/allocation threw in one growth call, a concurrent growth call
     // of another thread that needs a segment the failed call was responsible for waits for ever.  Excluded (counted) unless witness=1.
-    auto hang = [](const char* d) { if (g_fault_fired && !g_witness) { vs_stat_add("n_excluded", 1); vs_stat_flag("excluded_hang_after_fault"); vs_stat_add("nt", 0); vs_ok(); }
+    auto hang = [](const char* d) { if (g_fault_fired && !g_witness) {   // (also after a failed segment-TABLE allocation the unchanged tree leaves later calls waiting: same family)
+        vs_stat_add("n_excluded", 1); vs_stat_flag("excluded_hang_after_fault"); vs_stat_add("nt", 0); vs_ok(); }
                                     vs_violation(g_fault_fired ? "HANG-AFTER-FAULT" : "GROW-HANG", "%s", d); };
     vs_on_fixpoint(hang); vs_on_deadlock(hang);
     V = new Vec;
